@@ -13,8 +13,13 @@ MANIFEST = {
             "computed witness. On the faithful transcription of the index arithmetic, for every size 1..2^29: VerifyProof is SOUND for any "
             "number of leaf claims (injective branch hash); GenerateProof+VerifyProof is COMPLETE for any set of leaf positions; Update "
             "through a proof yields the root of the modified list for any index set; the right witness of any position and the append "
-            "path of the left part reconstruct the root; reload = saved state (codec round trip assumed). Outside the proofs: resolving "
-            "query hashes to positions (known finding for repeated values) and the node store, tied by running Go and model on every case "
+            "path of the left part reconstruct the root; Update writes the append path of the updated list and, over every script of "
+            "Append / Update / re-open steps, the stored info record decodes to (root, append path, size) of the current list and the "
+            "run continues from it (codec round trip assumed). LIMITS stated as theorems/docs: the soundness theorem is for verifiers "
+            "that know the tree size (proof.Size is not authenticated: a `_refuted` witness shows a wrong size makes the POSITION "
+            "claim false; tested for wrong sizes: an accepted proof only claims hashes of leaves of the list) and for claims at leaf "
+            "indexes; completeness is for ascending distinct positions (other orders, absent and repeated queries are tested). "
+            "Outside the proofs: resolving query hashes to positions (known finding for repeated values) and the node store, tied by running Go and model on every case "
             "(idxs, sibling hashes, verdicts, roots, witnesses, update/append scripts on lists with duplicates) and by the oracle.",
     "note": "Trusted: Coq kernel + vm_compute, in-Coq SHA-256 (checked on FIPS vectors), fidelity of the hand model as sampled by the "
             "correspondence, Go harness and Python glue. SHA-256 collision freeness is a hypothesis of the soundness theorems only.",
@@ -228,7 +233,10 @@ def run(ck):
                       "(k<=8 quick, 11 thorough) and random sizes near powers of two with a second seed; proofs: every leaf subset of every "
                       "tree with n<=6 (8 thorough) incl. the empty query, random subsets in random order with absent and duplicate "
                       "queries and after updates, each with all single-field tamperings (each query hash, root, each sibling hash, "
-                      "an index moved to an unqueried leaf); updates: every non-empty position subset for n<=5 and random sets, "
+                      "an index moved to an unqueried leaf, proof.Size changed to n-1/n+1/2n/n/2 with the data-level oracle, the honest hash "
+                      "claimed at an ancestor index 1..3 levels up while the leaf is claimed with another hash); scripts of Append / "
+                      "Update / re-open-from-store steps (explicit duplicate/aliasing/power-of-two scripts, each also with a re-open after "
+                      "every step, and random scripts) continuing on the re-opened object, all values of the final list queried; updates: every non-empty position subset for n<=5 and random sets, "
                       "followed by one Append; right witnesses: every position 0..n+1 for every n<=40 (110 thorough); right-witness reconstruction on arbitrary/inconsistent (index, append path, witness) triples under a 3 s watchdog. Distinct = by "
                       "(kind, n, query/update set or position).")
     ck.cov["exhaustive"] = True
